@@ -25,6 +25,7 @@ type c20Case struct {
 	KillAt  int        `json:"kill_at_ms"` // a separate goroutine calls Kill after this many ms (-1: only at the end)
 	HookMs  int        `json:"hook_ms"`    // every 3rd schedule point sleeps this long (host via verifhook.Set, plugin via VERIF_HOOKS)
 	Warm    bool       `json:"warm"`       // the client is started before the goroutines begin
+	KillN   int        `json:"kill_n,omitempty"` // how many goroutines call Kill at that instant (0/1: one)
 }
 
 var c20OpNames = []string{"start", "client", "protocol", "id", "exited", "reattach", "version", "dispense_call", "ping", "nextid", "host_accept", "plugin_accept", "stdio", "kill", "plugin_accept_lazy"}
@@ -43,6 +44,9 @@ func c20Gen(t *rapid.T) any {
 	c.KillAt = -1
 	if pct(t, "killrace", 45) {
 		c.KillAt = uniform(t, "killat", 60)
+		if pct(t, "killburst", 50) {
+			c.KillN = 2 + uniform(t, "killn", 7)
+		}
 	}
 	c.HookMs = oneOf(t, "hookms", []int{0, 0, 1, 3})
 	c.Warm = rapid.Bool().Draw(t, "warm")
@@ -265,11 +269,27 @@ func c20Run(ci any) (out Outcome) {
 		go func(g int, ops []string) { defer wg.Done(); thread(g, ops) }(g, ops)
 	}
 	if c.KillAt >= 0 {
+		// one or several goroutines call Kill at the same instant (released together)
+		n := max(c.KillN, 1)
+		gate := make(chan struct{})
+		for i := 0; i < n; i++ {
+			wg.Add(1)
+			go func() {
+				defer wg.Done()
+				defer func() {
+					if r := recover(); r != nil {
+						panics.Store(fmt.Sprintf("Kill panicked: %v", r))
+					}
+				}()
+				<-gate
+				cl.Kill()
+			}()
+		}
 		wg.Add(1)
 		go func() {
 			defer wg.Done()
 			time.Sleep(time.Duration(c.KillAt) * time.Millisecond)
-			cl.Kill()
+			close(gate)
 		}()
 	}
 	if _, ok := within(90*time.Second, wg.Wait); !ok {
